@@ -85,13 +85,16 @@ def edit_structures(tier, seed):
         slots = [(f, a, s) for f, ax in base.items() for a in ax for s in (0, 1)]
         edits1 = [(sl,) for sl in slots]
         edits2 = list(itertools.combinations(slots, 2))
+        sampled = False
         if tier == "quick":
             rng.shuffle(edits2)
             edits2 = edits2[:10]
+            sampled = True
         for eds in edits1 + edits2:
             for words in itertools.product([None] + WORDS, repeat=len(eds)):
+                pre = "rnd:" if (sampled and len(eds) == 2) else ""
                 out.append({"base": bname, "edits": [list(e) for e in eds], "words": list(words),
-                            "sid": f"edit;base={bname};slots={'+'.join(f'f{f}{a}{s}' for f, a, s in eds)};new={'+'.join(w or '-' for w in words)}"})
+                            "sid": f"{pre}edit;base={bname};slots={'+'.join(f'f{f}{a}{s}' for f, a, s in eds)};new={'+'.join(w or '-' for w in words)}"})
     return out
 
 
